@@ -131,3 +131,10 @@ func VerifSetValueMapping(f *FieldDescriptor, vm ValueMapping, typ AnnoType) {
 	f.valueMapping = vm
 	f.valueMappingType = typ
 }
+
+// VerifSetRequestBase marks f as the base.Base field of the root request struct ty, the way parseType does
+// under EnableThriftBase.
+func VerifSetRequestBase(ty *TypeDescriptor, f *FieldDescriptor) {
+	f.isRequestBase = true
+	ty.struc.baseID = f.id
+}
